@@ -35,12 +35,10 @@ class C15(Check):
                ['StrictHostKeyChecking yes'], ['UpdateHostKeys yes', 'HashKnownHosts yes'], ['VerifyHostKeyDNS yes', 'StrictHostKeyChecking ask'],
                ['NoHostAuthenticationForLocalhost yes'], ['User u', 'ServerAliveInterval 10']]
         k = 0
-        for known, pinned, cb, auths in itertools.product('ahpd', 'amd', (True, False), ([True], [False])):
-            for rep in range(2):
-                cfg = CFG[k % len(CFG)]
-                k += 1
-                out.append({'kind': 'ssh', 'verify': True, 'known': known, 'pinned': pinned, 'cb': cb, 'profile': 'default', 'negotiates': True,
-                            'auths': auths, 'subs': [True], 'sshcfg': cfg, 'sshcfg_host': ['*', 'device.example', 'device.*'][k % 3]})
+        for known, pinned, cb, cfg in itertools.product('ahpd', 'amd', (True, False), CFG):
+            k += 1
+            out.append({'kind': 'ssh', 'verify': True, 'known': known, 'pinned': pinned, 'cb': cb, 'profile': 'default', 'negotiates': True,
+                        'auths': [True] if k % 4 else [False], 'subs': [True], 'sshcfg': cfg, 'sshcfg_host': ['*', 'device.example', 'device.*'][k % 3]})
         out.append({'kind': 'ssh', 'verify': True, 'known': 'h', 'pinned': 'a', 'cb': False, 'profile': 'default', 'negotiates': False,
                     'auths': [True], 'subs': [True]})
         out.append({'kind': 'ssh', 'verify': True, 'known': 'a', 'pinned': 'a', 'cb': True, 'profile': 'nexus', 'negotiates': True,
